@@ -250,10 +250,9 @@ fn main() {
     for cfg in MODE_CFGS.iter() {
         let kinds = if cfg.src == 3 {
             vec![Kind::Circle, Kind::Hold(100), Kind::Hold(300)]
-        } else if ctx.quick() {
-            vec![Kind::Circle, Kind::Slider2, Kind::Spinner(600)]
         } else {
-            vec![Kind::Circle, Kind::Slider2, Kind::SliderLong, Kind::Spinner(600)]
+            // (a fourth kind at N <= 4 does not finish inside the thorough cap)
+            vec![Kind::Circle, Kind::Slider2, Kind::Spinner(600)]
         };
         let alpha = Alphabet::product(&kinds, &[0, 150, 1000], &[PosK::Same, PosK::Far], &[0], &[0]);
         let setts = settings_menu(cfg.dst, !ctx.quick());
